@@ -302,9 +302,10 @@ def rw_probe(ck, d, nbase):
                 rngf = range(10, 15) if op in (4, 5) else range(15, 30)
                 for f in rngf:
                     st["accumulate_checks"] += 1
-                    want = cin[f] + oz[cell * NF + f]
+                    # gradients: only the component along the face's axis is added to, the other two are not touched
+                    want = cin[f] + oz[cell * NF + f] if (op in (4, 5) or (f - 15) % 3 == b["i"]) else cin[f]
                     got = og[cell * NF + f]
-                    if vf.dbl_bits(want) != vf.dbl_bits(got) and not (want != want and got != got):
+                    if vf.dbl_bits(want) != vf.dbl_bits(got) and not (want != want and got != got) and not (want == 0.0 and got == 0.0):   # sign of an exact zero aside
                         nv += 1
                         if nv <= 3:
                             ck.violation("C10 premise fails on the real code: %s does not ADD to field %d: previous %r, contribution %r (from zeroed accumulators), result %r"
@@ -420,7 +421,7 @@ def run(ck):
     if ok.get("cells") and ok.get("model10"):
         cov["ops"], s2 = ops_tie(ck, d, 3000 if ck.quick else 40000)
         sig |= s2
-        cov["read_write_sets"] = rw_probe(ck, d, 6 if ck.quick else 40)
+        cov["read_write_sets"] = rw_probe(ck, d, 12 if ck.quick else 60)
         cov["order_swap"] = swap_oracle(ck, d, 200 if ck.quick else 4000)
     if ok.get("step") and ok.get("model10"):
         cov["whole_steps"] = whole_steps_tie(ck, d, ck.quick)
